@@ -30,6 +30,9 @@ class Num (F : Type) where
   penalty : F
   /-- `200.0` – scale and penalty of rmae -/
   c200 : F
+  /-- `100.0`, `2.0` – used by rmae's overflow-free recomputation -/
+  c100 : F
+  two : F
   /-- `10.0 * std::numeric_limits<double>::min()` – the "really close" window of rmae -/
   tol : F
   /-- `2.0 * std::numeric_limits<double>::epsilon()` – threshold of `issmall` -/
@@ -72,15 +75,21 @@ def mseErr {F} [Num F] (out : Option F) (t : F) : F :=
   | none => penalty
 
 /-- `rmae_error_functor` : 200·|t − a| / (|a| + |t|), `0` inside the window, `200` for an
-    illegal or non-finite value -/
+    illegal value.  When an intermediate result overflows the quotient is recomputed from the
+    halved operands, `100·(δ / (|a|/2 + |t|/2))`, and capped at 200 (`!(err <= 200.0)`, which
+    also catches NaN / ∞ from an infinite δ). -/
 def rmaeErr {F} [Num F] (out : Option F) (t : F) : F :=
   match out with
   | some a =>
     let delta := abs (sub t a)
     if le delta tol then zero
     else
-      let e := div (mul c200 delta) (add (abs a) (abs t))
-      if isFinite e then e else c200
+      let s := add (abs a) (abs t)
+      let e := div (mul c200 delta) s
+      if isFinite s && isFinite e then e
+      else
+        let e2 := mul c100 (div delta (add (div (abs a) two) (div (abs t) two)))
+        if le e2 c200 then e2 else c200
   | none => c200
 
 /-- `count_error_functor` : 1 unless the value exists and `issmall(out − target)` -/
@@ -222,6 +231,8 @@ instance : Num Rat where
   isFinite _ := true
   penalty := 1797693134862315633301262629765050630866728936377003738459752501701914801454763796210449641241516314779480883561305033792001456611676070178718250902275612892141556670084334558762242165238180420033094130920939320073544954448635079731752693526288593899415905695239791325170347763968341437224060469123940876288
   c200 := 200
+  c100 := 100
+  two := 2
   tol := 10 / 2 ^ 1022
   eps2 := 1 / 2 ^ 51
 
@@ -240,6 +251,8 @@ instance : Num Float where
   isFinite := Float.isFinite
   penalty := Float.ofBits 0x7FEFFFFFFFFFFFFF / 100.0
   c200 := 200.0
+  c100 := 100.0
+  two := 2.0
   tol := 10.0 * Float.ofBits 0x0010000000000000
   eps2 := 2.0 * Float.ofBits 0x3CB0000000000000
 
